@@ -128,6 +128,22 @@ theorem optDecAttr_notExtant (c : Codec) (v : Val) (h : v.isExtant = false) :
     optDecAttr c v = (c.decAttr v).map .some := by
   cases v <;> simp [optDecAttr, Val.isExtant] at h ⊢
 
+theorem optBodyOK_spec (names : List String) (t : Ty) (h : optBodyOK names t = true) :
+    bodySafe names t = true ∧ acceptsBare t = false := by
+  cases t <;> simp [optBodyOK] at h <;> simp [bodySafe, acceptsBare, h] <;> exact h
+
+theorem optDecBody_split (c : Codec) (b : Val) (h1 : b.isExtant = false) (h2 : ∀ items, b ≠ .record [] items) :
+    optDecBody c (bodySplit b).1 (bodySplit b).2 = (c.decBody (bodySplit b).1 (bodySplit b).2).map .some := by
+  cases b with
+  | extant => simp [Val.isExtant] at h1
+  | num k n => simp [bodySplit, optDecBody]
+  | bool v => simp [bodySplit, optDecBody]
+  | text v => simp [bodySplit, optDecBody]
+  | record attrs items =>
+    cases attrs with
+    | nil => exact absurd rfl (h2 items)
+    | cons a as => simp [bodySplit, optDecBody]
+
 theorem good_opt (t : Ty) (g : Good t) (hne : acceptsExtant t = false) : Good (.opt t) where
   dec_enc := by
     intro x hx
@@ -146,7 +162,22 @@ theorem good_opt (t : Ty) (g : Good t) (hne : acceptsExtant t = false) : Good (.
       have h1 := g.notExtant hne y hx
       simp only [codecOf, optCodec]
       rw [optDecAttr_notExtant _ _ h1, g.attr ha' y hx]; rfl
-  body := by intro names h; simp [bodySafe] at h
+  body := by
+    intro names h x hx
+    have hspec := optBodyOK_spec names t (by simpa [bodySafe] using h)
+    cases x <;> simp [okInst] at hx
+    · simp [codecOf, optCodec, bodySplit, optDecBody]
+    · rename_i y
+      have hb := g.body names hspec.1 y hx
+      have h1 := g.notExtant hne y hx
+      have h2 : ∀ items, (codecOf t).enc y ≠ .record [] items := by
+        intro items e
+        have := g.dec_enc y hx
+        rw [e, g.bare hspec.2 items] at this
+        cases this
+      simp only [codecOf, optCodec]
+      rw [optDecBody_split _ _ h1 h2, hb.1]
+      exact ⟨rfl, hb.2⟩
   omitted := by
     intro x hx h
     cases x <;> simp [codecOf, optCodec] at h ⊢
